@@ -40,6 +40,16 @@ def run(env, tier, seed, broken=None):
         cases.append({'id': 'd%d' % n, 'src': '%s a = 0;\n' % VAR + '{ ' * d + 'a = a + 1; ' + '} ' * d + '\n%s a;\n' % PRINT}); n += 1
         cases.append({'id': 'd%d' % n, 'src': '%s f(d) { %s (d <= 0) { %s 0; } %s f(d - 1) + 1; }\n%s f(%d);\n' % (FUN, IF, RETURN, RETURN, PRINT, d)}); n += 1
         cases.append({'id': 'd%d' % n, 'src': '%s a = [];\n' % VAR + ''.join('a = [a];\n' for _ in range(min(d, 500))) + '%s a;\n' % PRINT}); n += 1
+    # string contents that reach a string-to-number coercion (arithmetic, comparison, index, a math built-in): every character of
+    # the Bengali block and of the other digit / number-like ranges, alone and next to digits of both scripts
+    sweep = list(range(0x0980, 0x0A00)) + list(range(0x0660, 0x066A)) + list(range(0x0966, 0x0970)) + list(range(0xFF10, 0xFF1A)) + \
+        [0x00B2, 0x00BD, 0x2460, 0x2170, 0x3007, 0x1D7CE, 0x0BE6, 0x0E50, 0x2080, 0x0030, 0x002B, 0x002E, 0x0065, 0x005F, 0x00A0, 0x200D, 0xFEFF]
+    for k, cp in enumerate(sweep):
+        c = chr(cp)
+        forms = ['"%s" * 2' % c, '"\u09e7%s" - 0' % c, '"%s5" < 3' % c, '[10, 20, 30]["%s"]' % c, '%s("1%s")' % (ABS, c), '-"%s\u09e8"' % c, '"2" ** "%s"' % c]
+        for j, fm in enumerate(forms):
+            if tier == 'thorough' or j == k % len(forms) or j == (k + 3) % len(forms):
+                cases.append({'id': 'u%d' % n, 'src': '%s "s";\n%s %s;\n%s "e";\n' % (PRINT, PRINT, fm, PRINT)}); n += 1
     for i in range(2500 if tier == 'quick' else 100000):
         r = sub_rng(seed, 'C07r%d' % i)
         cases.append({'id': 'r%d' % n, 'src': progs.random_program(r, r.randint(4, 18), 3, fault_rate=0.5, use_input=True), 'stdin': r.choice(['a\n5\n', '\n\nx\n', ' \n\n', '\r\n\n', '7'])}); n += 1
